@@ -15,6 +15,8 @@ CFG = dict(
         "roundedBox_eq", "roundedBox_neg_iff", "roundedBox_lipschitz",
         # capsule
         "closestPoint_eq", "closestPoint_minimises", "line_eq", "line_neg_iff", "line_zero_iff", "line_lipschitz", "line_exact_le",
+        # capsule, attained direction and rounded box as Minkowski sum (Props/C19Capsule.lean)
+        "closestPoint_variational", "line_at_offset", "exists_perp_unit", "line_exact_attained", "line_exact", "roundedBox_neg_iff_minkowski",
         # rounded cylinder
         "roundedCylinder_eq", "roundedCylinder_lipschitz", "roundedCylinder_neg_iff_sharp", "roundedCylinder_neg_iff",
         # rounded cone (Props/C19Cone.lean): ALL parameters (…_all, nested, same_centre), then the forms under the guard |r1 - r2| < |b - a|
@@ -32,35 +34,35 @@ CFG = dict(
         # the formula without the early return (source before /repo b302544) is wrong outside the guard
         "roundedCone_eq_formulaOld", "roundedCone_guard_needed", "roundedCone_guard_sharp",
         # VarryingThicknessLine = Union of rounded cones (hand transcription of the loop)
-        "varLine_lipschitz", "varLine_neg_iff", "varLine_isSome",
+        "varLine_lipschitz", "varLine_neg_iff", "varLine_isSome", "varLineCones_eq_model", "varLine_eq_model",
     ],
     helper_theorems=[
         "PolyVerif.Cone.roundedCone_unfold", "PolyVerif.Cone.a2_nonpos_iff", "PolyVerif.Cone.roundedCone_eq_core", "PolyVerif.Cone.nested_le_ball", "PolyVerif.Cone.mul_abs_lt_iff", "PolyVerif.Cone.test1_iff", "PolyVerif.Cone.test2_iff",
         "PolyVerif.Cone.core_eq_prof", "PolyVerif.Cone.cap_le", "PolyVerif.Cone.prof_le", "PolyVerif.Cone.prof_attained",
         "PolyVerif.Cone.roundedCone_eq_prof", "PolyVerif.Cone.distance_axis_point",
     ],
-    modules=["PolyVerif.Props.C19", "PolyVerif.Props.C19Cone"],
+    modules=["PolyVerif.Props.C19", "PolyVerif.Props.C19Cone", "PolyVerif.Props.C19Capsule"],
     streams=[dict(name="c19", n=dict(quick=400, thorough=30000))],
     harness_files=[],
-    trusted=T_COMMON + ["hand model of sdf.Union/Intersect (PolyVerif/Model/SdfOps.lean), tied at Float bit-for-bit by the c19 stream",
+    trusted=T_COMMON + ["hand model of sdf.Union/Intersect (PolyVerif/Model/SdfOps.lean) and of the VarryingThicknessLine loop (Model/SdfVarLine.lean), tied at Float bit-for-bit by the c19 stream",
                         "reference distance functions inside the driver (Driver/C19.lean) used by the oracle lines"],
     residue=[
         "RoundedCone: sign, zero set, 1-Lipschitz bound, exact-distance lower bound and the convex-hull form (0 < r1, r2) are proved for ALL parameters (…_all theorems: a = b, nested and internally tangent balls included; no sign condition on the radii except where stated). The source has two regimes separated exactly by a2 > 0 ⇔ |r1 - r2| < |b - a| (Cone.a2_nonpos_iff): the three-branch formula (roundedCone_profile and the …_profile forms need this guard) and the early return of the larger ball (roundedCone_nested). The early return was added to /repo (b302544) after this proof found the bare formula wrong outside the guard; roundedCone_guard_needed / roundedCone_guard_sharp are closed witnesses about coneFormulaOld, a local Lean copy of the closure body without the early return (not regenerated — it documents the old defect, it is not a claim about the current source); the same two inputs run first in the c19 stream as fixed corpus lines against the current source",
         "RoundedCone: exact distance is proved as lower bound everywhere (roundedCone_exact_le_all) and attained for points outside or on the shape with radii >= 0 (roundedCone_exact_attained_outside_all); attained for interior points is not proved (not claimed by the property for this shape)",
         "RoundedCone: the sign set is given as the union of the open balls B(a+t(b-a), r1+t(r2-r1)), t in [0,1] (roundedCone_neg_iff_all), as the Mathlib convex hull of the two open end balls in EuclideanSpace R (Fin 3) (roundedCone_neg_iff_convexHull_all, via the coordinate bridge toE), and under the guard as the three profile regions (roundedCone_neg_iff_profile); 'interior of the convex hull of the closed balls' is read as that convex hull of open balls",
         "RoundedCone near tangency in float64 (|r1-r2| within rounding of |b-a|): a2 is a difference of nearly equal numbers, which side of the early return is taken is decided by rounding; both regimes agree in the limit; sampled by the stream (rcone.near_tangent), not a theorem (IEEE rounding)",
-        "exact distance: both directions (lower bound |f p| <= dist(p, s) for every surface point s, and a surface point at distance exactly |f p|) are proved for sphere, plane and box; for the capsule the lower bound, the sign/zero-set characterisation and f = dist(p, segment) - r (closestPoint_minimises) are theorems, the explicit surface witness is not",
-        "rounded box / rounded cylinder with rounding > 0: negative exactly where the un-rounded core field is below the rounding radius (theorem); that this sub-level set is the Minkowski sum of the core with a ball is not proved",
+        "exact distance: both directions (lower bound |f p| <= dist(p, s) for every surface point s, and a surface point at distance exactly |f p|) are proved for sphere, plane, box and capsule (line_exact: every p, outside, inside and on the axis; radius >= 0, a != b)",
+        "rounded box: negative exactly on the Minkowski sum of the closed box with the open ball of the rounding radius (roundedBox_neg_iff_minkowski). Rounded cylinder with rounding > 0: negative exactly where the un-rounded core profile field is below the rounding radius (theorem); that this sub-level set is the Minkowski sum of the core cylinder with a ball is not proved",
         "subtract: f<0 iff base<0 and 0<sub (strictly outside the subtracted shape): on the subtracted shape's surface f=0, so 'difference of interiors' is read as interior(A) minus closure(B)",
         "capsule with start = end is excluded (guard a ≠ b; the property quantifies over sizes > 0); in float64 the Go code returns NaN there",
         "plane: the Lipschitz and exact-distance theorems need a unit normal (n·n = 1); with a non-unit normal the field is a scaled distance (not claimed)",
         "sphere_eq, plane_eq, line_eq, roundedBox_eq, translate_spec are definitional unfoldings (rfl) listed for reference: they fix what the regenerated closures compute, they are not property clauses",
-        "VarryingThicknessLine: its loop (consecutive points -> RoundedCone, then Union) is transcribed by hand as varLineCones (outside the translator's subset, not corresponded); varLine_lipschitz / varLine_neg_iff are corollaries of the all-parameter rounded-cone theorems and union_lipschitz / union_neg_iff",
+        "VarryingThicknessLine: its loop (consecutive points -> RoundedCone, then Union) is a hand model (Model/SdfVarLine.lean, outside the translator's subset) built from the REGENERATED RoundedCone; it is corresponded bit for bit by the c19.varline lines (0..5 points incl. the panic for fewer than two, repeated points, swallowing radii); varLine_lipschitz / varLine_neg_iff are corollaries of the all-parameter rounded-cone theorems and union_lipschitz / union_neg_iff, about that model (varLine_eq_model)",
         "IEEE rounding: theorems are over ℝ",
     ],
     assumptions=["float64 arithmetic in Go on amd64 is IEEE-754 without FMA contraction"],
     manifest=dict(
-        text="All 7 primitive shapes, every one for all parameters (rounded cone incl. nested/tangent balls and a = b: the source's early return of the larger ball, added after this proof showed the bare formula wrong there). Lean 4 theorems over ℝ about the SDF closures regenerated from math/sdf/*.go and line3D.go on every run: sign and zero set: geometric characterisation for sphere, plane, box, capsule, rounded cone (the closure equals a 2-D profile of cylindrical coordinates — two sphere caps and a slanted side separated by one affine functional, branch tests shown exactly equivalent — and is the minimum over t∈[0,1] of |p − (a+t(b−a))| − (r1+t(r2−r1)); negative exactly in the union of these open balls = convex hull of the two open end balls; VarryingThicknessLine = Union of rounded cones inherits sign and Lipschitz) and the un-rounded cylinder (rounded box / rounded cylinder: negative exactly where the 1-Lipschitz core field is below the rounding radius); 1-Lipschitz bound for all of these (|f p − f q| ≤ |p − q|, proved through Mathlib's Euclidean space; box/rounded box/rounded cylinder via a 1-Lipschitz signed distance to the orthant with an intermediate-value argument; capsule via the minimising property of the clamped projection; rounded cone as a minimum of 1-Lipschitz ball gaps), exact distance (sphere, plane, box: both directions; capsule: f = distance to the segment minus r, and the lower bound; rounded cone: lower bound, and attained outside the shape), union/intersection/subtraction sign laws and Lipschitz closure for any number of operands, translation. Regenerated definitions run at Float and compared bit-for-bit with the Go closures; reference-distance oracles on the Go outputs.",
-        note="Trusted: Lean kernel; propext/Classical.choice/Quot.sound; translator and vector table; hand model of Union/Intersect (corresponded); harness; reference SDFs in the driver. Not proved: 'attained' direction of exact distance for box/capsule; IEEE rounding.",
+        text="All 7 primitive shapes, every one for all parameters (rounded cone incl. nested/tangent balls and a = b: the source's early return of the larger ball, added after this proof showed the bare formula wrong there). Lean 4 theorems over ℝ about the SDF closures regenerated from math/sdf/*.go and line3D.go on every run: sign and zero set: geometric characterisation for sphere, plane, box, capsule, rounded cone (the closure equals a 2-D profile of cylindrical coordinates — two sphere caps and a slanted side separated by one affine functional, branch tests shown exactly equivalent — and is the minimum over t∈[0,1] of |p − (a+t(b−a))| − (r1+t(r2−r1)); negative exactly in the union of these open balls = convex hull of the two open end balls; VarryingThicknessLine = Union of rounded cones inherits sign and Lipschitz) and the un-rounded cylinder (rounded box / rounded cylinder: negative exactly where the 1-Lipschitz core field is below the rounding radius); 1-Lipschitz bound for all of these (|f p − f q| ≤ |p − q|, proved through Mathlib's Euclidean space; box/rounded box/rounded cylinder via a 1-Lipschitz signed distance to the orthant with an intermediate-value argument; capsule via the minimising property of the clamped projection; rounded cone as a minimum of 1-Lipschitz ball gaps), exact distance (sphere, plane, box, capsule: both directions — |f p| ≤ |p − s| for every surface point s and some surface point at distance exactly |f p|, for every p incl. interior and on-axis points; rounded cone: lower bound, and attained outside the shape); rounded box = Minkowski sum of the box with the open ball of the rounding radius, union/intersection/subtraction sign laws and Lipschitz closure for any number of operands, translation. Regenerated definitions run at Float and compared bit-for-bit with the Go closures; reference-distance oracles on the Go outputs.",
+        note="Trusted: Lean kernel; propext/Classical.choice/Quot.sound; translator and vector table; hand models of Union/Intersect and of the VarryingThicknessLine loop (both corresponded bit for bit); harness; reference SDFs in the driver. Not proved: exact distance attained for interior points of the rounded cone (not claimed by the property); Minkowski reading of the rounded cylinder; IEEE rounding.",
         technique="Lean 4 proof over a model regenerated from source (translator) + Float bit-exact correspondence"),
 )
